@@ -164,3 +164,10 @@ func DefaultOptions(mode string) {
 		NCpu:                   1,
 	}
 }
+
+// DefaultOptionsKeepConf resets only the tool's process-global state (a restart with the same configuration).
+func DefaultOptionsKeepConf() {
+	metric.MetricMap = new(sync.Map)
+	base.Status = "null"
+	utils.TargetRoundRobin = 0
+}
